@@ -41,9 +41,14 @@ TABLE = {
                 explanation='proved (event mode): ErrorMetadataBase.create_exception and api._ErrorMetadata.create_exception are trace-equivalent '
                             'to the decision table taken from the property (same type iff no initialiser of its own or listed; KeyError subclass; '
                             'StagingError otherwise); assumed with a bounded stand-in: stack translation and the source map'),
-    'C13': dict(level='other', bounded=[('c13_zoo.py', 'callable zoo x argument shapes x options x injected pipeline failures')],
-                explanation='proved: conversion-rule matching (Rule.matches: exact module or dotted prefix) and the allow-list cache '
-                            'structure; assumed with a bounded stand-in: the converted_call decision chain'),
+    'C13': dict(level='other', bounded=[('c13_zoo.py', 'callable zoo x argument shapes x options x injected pipeline failures'),
+                                        ('rt_convcall.py', 'one concrete call per policy branch + disabled-then-enabled sequence (replay of the event contract)')],
+                explanation='proved (event mode, all callbacks, all argument shapes): converted_call is trace-equivalent to the documented policy '
+                            'table written as a specification program (which targets run unconverted and whether that is remembered, the call '
+                            'of a partial, routing of builtins, what is converted and with which effective arguments, fall-back with one warning '
+                            'and remembering, target exceptions never swallowed), _call_unconverted invokes the target exactly once with the '
+                            'same binding; Rule.matches and the allow-list cache structure proved; policy predicates (is_allowlisted, '
+                            'is_unsupported, isbuiltin) are uninterpreted: their tables are exercised by the bounded zoo only'),
     'C14': dict(level='other', bounded=[('c14_builtins.py', 'every call shape of the 13 builtins over value classes + context-sensitive builtins in nested bodies')],
                 explanation='bounded stand-in in this revision (event-mode contracts of the overloads pending)'),
     'C15': dict(level='other', bounded=[('c15_source.py', 'layout grammar for defs and lambdas, recovered tree vs the node compiled by the interpreter')],
